@@ -125,6 +125,21 @@ fn directed_for(tear: bool) -> Vec<Vec<Op>> {
     if !tear {
         v.push(vec![a(1), a(2), Op::Batch((0..900).map(|i| (1000 + i, 2)).collect()), a(3), Op::Reopen, a(4)]);
     }
+    // clears that overlap across 32-bit word boundaries of the bitfield (more than 32 blocks), in
+    // every phase of the flush rhythm: a later clear whose last word has nothing left to clear,
+    // a clear ending exactly on a word boundary, a clear of everything
+    for pad in 0..4u32 {
+        let mut ops = vec![Op::Batch((0..40).map(|i| (200 + i, 2)).collect())];
+        for j in 0..pad {
+            ops.push(a(300 + j));
+        }
+        ops.push(Op::Clear(32, 40));
+        ops.push(Op::Clear(0, 40));
+        ops.push(Op::Reopen);
+        ops.push(a(400));
+        v.push(ops);
+    }
+    v.push(vec![Op::Batch((0..70).map(|i| (500 + i, 1)).collect()), Op::Clear(30, 64), Op::Clear(20, 64), Op::Clear(0, 33), Op::Reopen, Op::Clear(0, 70), Op::Reopen, a(600)]);
     // big single entry forcing a flush by size
     v.push(vec![a(1), Op::Batch((0..40).map(|i| (100 + i, 3)).collect()), a(2), Op::Reopen, a(3)]);
     v
